@@ -148,6 +148,9 @@ def _split_top(s):
 def _sid(k):
     if isinstance(k, VStr):
         k = k.sid
+    if isinstance(k, VClass):        # classes as dictionary keys: the id of their name
+        from .values import intern_str
+        k = intern_str(k.name) if isinstance(k.name, str) else k.name
     return to_z3(k)
 
 
